@@ -1,8 +1,18 @@
-import EdpVerif.Drv.Common
+import EdpVerif.Drv.Etf
 namespace Edp.Drv
+open Edp
 
-/-- driver requests of property C02 (stub: nothing handled yet) -/
+def classOf : Except DErr Term → String
+  | .ok _ => "ok"
+  | .error .panic => "panic"
+  | .error _ => "err"
+
+/-- C02 tie: outcome class of the owned and of the zero-copy decoder on an arbitrary byte string -/
 def handleC02 : List String → Option String
+  | ["c02class", h, o] => some <| run do
+    let b ← getHex h
+    let x := (parseOracle o).ext
+    pure (classOf (decode x b) ++ " " ++ classOf (decodeBorrowed x b))
   | _ => none
 
 end Edp.Drv
